@@ -245,7 +245,7 @@ func rulesC16(c *Ctx) {
 					if isBO {
 						k, isK = constInt(bo.Y)
 					}
-					if !isBO || bo.Op.String() != "+" || bo.X != ssa.Value(p) || !isK || k <= 0 {
+					if !isBO || bo.Op.String() != "+" || resolveParam(bo.X) != ssa.Value(p) || !isK || k <= 0 {
 						allInc = false
 						c.Fail("C16.recursion", fname(fn)+":"+pname(p)+"+1 on every recursive call", c.P.InstrPos(call), "a recursive call passes "+vstrShort(a[pi])+" for the depth parameter "+pname(p)+" instead of "+pname(p)+"+k: nesting through this call is not counted and the depth bound can be bypassed")
 					}
